@@ -105,23 +105,158 @@ def firstOk (g : Target → Outcome V) : List Target → Outcome (Option V)
     | .diverge => .diverge
     | .unmodelled w => .unmodelled w
 
+/-- the stage skeleton of rule.py:381-431 over an abstract pass `pass flags` = "the first member that converts
+under these flags": 1. exact type; 2. strict pass unless both preferences are set; 3. no-loss pass if none is
+set; 4. the context's own flags; else the collected errors are raised -/
+def unionStages (exact : Bool) (pass : Flags → Outcome (Option V)) (f : Flags) (v : V) : Outcome V :=
+  if exact then .ok v else
+  (if !f.ndl || !f.nec then pass ⟨true, true⟩ else .ok none) >>= fun s2 =>
+  match s2 with
+  | some r => .ok r
+  | none =>
+    (if !f.ndl && !f.nec then pass ⟨false, true⟩ else .ok none) >>= fun s3 =>
+    match s3 with
+    | some r => .ok r
+    | none =>
+      pass f >>= fun s4 =>
+      match s4 with
+      | some r => .ok r
+      | none => .perr .typeError
+
 /-- rule.py:381-431 over an abstract member converter `conv flags member value`:
 1. a value whose exact type is a member passes through; 2. unless both preferences are already set, every
 member is tried under both (the strict stage); 3. if neither is set, every member under no_data_loss;
 4. every member under the context's own flags; else the collected errors are raised (a ParseError). -/
 def unionParse (conv : Flags → Target → V → Outcome V) (f : Flags) (ts : List Target) (v : V) : Outcome V :=
-  if ts.any (fun t => typeEq v t) then .ok v else
-  (if !f.ndl || !f.nec then firstOk (fun t => conv ⟨true, true⟩ t v) ts else .ok none) >>= fun s2 =>
-  match s2 with
-  | some r => .ok r
-  | none =>
-    (if !f.ndl && !f.nec then firstOk (fun t => conv ⟨false, true⟩ t v) ts else .ok none) >>= fun s3 =>
-    match s3 with
-    | some r => .ok r
-    | none =>
-      firstOk (fun t => conv f t v) ts >>= fun s4 =>
-      match s4 with
-      | some r => .ok r
-      | none => .perr .typeError
+  unionStages (ts.any (fun t => typeEq v t)) (fun g => firstOk (fun t => conv g t v) ts) f v
+
+/-! ### members of a Union that are Rules: parametrised generics and constrained types (rule.py:1689-1760,
+`_parse_seq_args` :1969-1995, `_parse_map_args` :1998-2060, `_parse_tuple_args` :1908-1966), default options
+(fail-fast context: the first `handle_error` raises a ParseError) -/
+
+/-- one constraint of a constrained Rule (`class R(int, Rule): gt = 0`) -/
+inductive Constraint where
+  | intGt (n : Int) | intLe (n : Int) | strMaxLen (n : Nat)
+  deriving Repr
+
+inductive Ty where
+  | plain (t : Target)
+  | seqOf (k : SeqK) (e : Ty)              -- List[e] / Set[e] / Tuple[e, ...] …
+  | mapOf (kt vt : Ty)                     -- Dict[kt, vt]
+  | tupleOf (ts : List Ty)                 -- Tuple[t1, …, tn]
+  | cons (t : Target) (c : Constraint)     -- constrained Rule over a plain origin
+  deriving Repr
+
+/-- a Rule raises ParseError whatever its parts raised (`except Exception … handle_error`); a hang stays a hang -/
+def wrapRule (o : Outcome V) : Outcome V :=
+  match o with
+  | .ok r => .ok r
+  | .perr _ => .perr .typeError
+  | .escape _ => .perr .typeError
+  | .diverge => .diverge
+  | .unmodelled w => .unmodelled w
+
+def mapMO (g : V → Outcome V) : List V → Outcome (List V)
+  | [] => .ok []
+  | x :: xs => g x >>= fun y => mapMO g xs >>= fun ys => .ok (y :: ys)
+
+/-- `_parse_map_args`: keys then values, entries inserted in order (`result[key] = val`) -/
+def mapEntries (gk gv : V → Outcome V) : List (V × V) → List (V × V) → Outcome (List (V × V))
+  | [], acc => .ok acc
+  | (k, v) :: rest, acc =>
+    gk k >>= fun k' => gv v >>= fun v' =>
+      if hashable k' then mapEntries gk gv rest (dictSet acc k' v') else .perr .typeError
+
+def checkConstraint (c : Constraint) (v : V) : Outcome V :=
+  match c, v with
+  | .intGt n, .int _ i => if i > n then .ok v else .perr .valueError
+  | .intGt n, .bool b => if (if b then 1 else 0) > n then .ok v else .perr .valueError
+  | .intLe n, .int _ i => if i ≤ n then .ok v else .perr .valueError
+  | .intLe n, .bool b => if (if b then 1 else 0) ≤ n then .ok v else .perr .valueError
+  | .strMaxLen n, .str _ s => if s.length ≤ n then .ok v else .perr .valueError
+  | _, _ => .unmodelled "constraint on this value"
+
+mutual
+/-- `transformer(value, member)` for a member type under flags `f` (the flags of the sub-context the union
+entered for this member; element sub-contexts inherit them) -/
+def parseTy (P : Prims) (E : Env) (f : Flags) : Ty → V → Outcome V
+  | .plain t, v => transform P E f t v
+  | .cons t c, v => wrapRule (transform P E f t v >>= checkConstraint c)
+  | .seqOf k e, v => wrapRule (
+      transform P E f (.cls k.base 0) v >>= fun s =>
+      match s with
+      | .seq k' _ xs =>
+        if k'.isSet && xs.length > 1 then .unmodelled "iteration order of a set"
+        else mapMO (parseTy P E f e) xs >>= fun ys => construct k 0 ys      -- re-wrap `origin(result)`
+      | _ => .unmodelled "origin transform did not give a sequence")
+  | .mapOf kt vt, v => wrapRule (
+      transform P E f (.cls .dict 0) v >>= fun s =>
+      match s with
+      | .dict _ kvs => mapEntries (parseTy P E f kt) (parseTy P E f vt) kvs [] >>= fun r => .ok (.dict 0 r)
+      | _ => .unmodelled "origin transform did not give a dict")
+  | .tupleOf ts, v => wrapRule (
+      transform P E f (.cls .tuple 0) v >>= fun s =>
+      match s with
+      | .seq _ _ xs =>
+        -- excess items: reported under no_data_loss (addition is None here); missing items: AbsenceError
+        if xs.length > ts.length && f.ndl then .perr .typeError
+        else if xs.length < ts.length then .perr .typeError
+        else parseTuple P E f ts xs >>= fun ys => .ok (.seq .tuple 0 ys)
+      | _ => .unmodelled "origin transform did not give a tuple")
+termination_by structural t => t
+/-- the prefix items of a fixed tuple (excess items are dropped: `addition` is None) -/
+def parseTuple (P : Prims) (E : Env) (f : Flags) : List Ty → List V → Outcome (List V)
+  | [], _ => .ok []
+  | _ :: _, [] => .perr .typeError
+  | t :: ts, x :: xs => parseTy P E f t x >>= fun y => parseTuple P E f ts xs >>= fun ys => .ok (y :: ys)
+termination_by structural ts => ts
+end
+
+/-! #### the context a member runs in (rule.py:393-394: `with context.enter(...)` *inside* the loop) -/
+
+/-- `RuntimeContext.handle_error` keeps the error in `context.errors` even when it raises, and `Rule.parse`
+ends with `context.raise_error()`: a Rule run in a context that already holds an error fails.  `runMember
+isRule poisoned clean` = (outcome, context holds an error afterwards) for a member whose outcome in a
+clean context is `clean`. -/
+def runMember (isRule : Bool) (poisoned : Bool) (clean : Outcome V) : Outcome V × Bool :=
+  if !isRule then (clean, poisoned)
+  else match clean with
+    | .ok r => if poisoned then (.perr .typeError, true) else (.ok r, false)
+    | .diverge => (.diverge, poisoned)
+    | .unmodelled w => (.unmodelled w, poisoned)
+    | _ => (.perr .typeError, true)
+
+/-- one pass of the union with a **fresh** context per member (what the code does) -/
+def passFresh : List (Bool × Outcome V) → Outcome (Option V)
+  | [] => .ok none
+  | (isRule, clean) :: rest =>
+    match (runMember isRule false clean).1 with
+    | .ok r => .ok (some r)
+    | .perr _ => passFresh rest
+    | .escape _ => passFresh rest
+    | .diverge => .diverge
+    | .unmodelled w => .unmodelled w
+
+/-- one pass with **one** context shared by all members (the hoisted `with`): an earlier failing Rule
+poisons every later Rule -/
+def passShared : Bool → List (Bool × Outcome V) → Outcome (Option V)
+  | _, [] => .ok none
+  | p, (isRule, clean) :: rest =>
+    match runMember isRule p clean with
+    | (.ok r, _) => .ok (some r)
+    | (.perr _, p') => passShared p' rest
+    | (.escape _, p') => passShared p' rest
+    | (.diverge, _) => .diverge
+    | (.unmodelled w, _) => .unmodelled w
+
+def Ty.isRule : Ty → Bool
+  | .plain _ => false
+  | _ => true
+
+/-- the Union over member *types* (rule.py:381-431): `unionParse` with `parseTy` as member converter; the
+exact-type shortcut only applies to plain members -/
+def unionParseTy (P : Prims) (E : Env) (f : Flags) (ts : List Ty) (v : V) : Outcome V :=
+  unionStages (ts.any fun t => match t with | .plain t' => typeEq v t' | _ => false)
+    (fun g => passFresh (ts.map fun t => (t.isRule, parseTy P E g t v))) f v
 
 end Utv.C12M
